@@ -151,26 +151,32 @@ func (dm *DMap) deleteKeys(ctx context.Context, keys ...string) (int, error) {
 		members[member] = append(members[member], key)
 	}
 
+	var total int
 	for member, distributedKeys := range members {
 		if member.CompareByName(dm.s.rt.This()) {
 			for _, key := range distributedKeys {
 				if err := dm.deleteKey(key); err != nil {
-					return 0, err
+					return total, err
 				}
+				total++
 			}
 		} else {
 			cmd := protocol.NewDel(dm.name, distributedKeys...).Command(dm.s.ctx)
 			rc := dm.s.client.Get(member.String())
 			err := rc.Process(ctx, cmd)
 			if err != nil {
-				return 0, protocol.ConvertError(err)
+				return total, protocol.ConvertError(err)
 			}
-
-			return 0, protocol.ConvertError(cmd.Err())
+			count, err := cmd.Result()
+			if err != nil {
+				return total, protocol.ConvertError(err)
+			}
+			// Continue with the keys of the other partition owners.
+			total += int(count)
 		}
 	}
 
-	return len(keys), nil
+	return total, nil
 }
 
 // Delete deletes the value for the given key. Delete will not return error if key doesn't exist. It's thread-safe.
